@@ -506,3 +506,70 @@ func exclusiveProp(t *rapid.T) {
 	stats.NonTrivial(fmt.Sprintf("B|%s|%s|%d|%d", name, tr, nintr, nmsg))
 	stats.Sample(doc)
 }
+
+// TestC02Burst: several goroutines, released by a barrier, each send one message on an idle
+// socket at the same instant, many rounds in a row; every round's messages must all arrive.
+// (Wake-up and hand-off bugs between concurrent senders show only when the socket is idle.)
+func TestC02Burst(t *testing.T) {
+	stats.ScaledChecks(1, 4, func() {
+		rapid.Check(t, func(t *rapid.T) {
+			p := rapid.SampledFrom(pats).Draw(t, "pattern")
+			tr := rapid.SampledFrom([]string{"inproc", "inproc", "tcp"}).Draw(t, "transport")
+			nsend := rapid.IntRange(2, 4).Draw(t, "senders")
+			rounds := rapid.IntRange(50, 300).Draw(t, "rounds")
+			doc := map[string]interface{}{"test": "TestC02Burst", "pattern": p.name, "transport": tr, "senders": nsend, "rounds": rounds, "rseed": os.Getenv("VERIF_RSEED")}
+			snd, rcv := fixture.New(p.snd), fixture.New(p.rcv)
+			defer snd.Close()
+			defer rcv.Close()
+			if _, err := fixture.Connect(rcv, snd, tr); err != nil {
+				t.Fatalf("harness: %v", err)
+			}
+			_ = snd.SetOption(mangos.OptionSendDeadline, 5*time.Second)
+			_ = rcv.SetOption(mangos.OptionRecvDeadline, 5*time.Second)
+			for r := 0; r < rounds; r++ {
+				start := make(chan struct{})
+				errs := make(chan error, nsend)
+				for s := 0; s < nsend; s++ {
+					go func(s int) {
+						m := mangos.NewMessage(16)
+						m.Body = append(m.Body, []byte(fmt.Sprintf("b%d-%d", s, r))...)
+						if p.hdr != nil {
+							m.Header = append(m.Header, p.hdr...)
+						}
+						<-start
+						err := snd.SendMsg(m)
+						if err != nil {
+							m.Free()
+						}
+						errs <- err
+					}(s)
+				}
+				close(start)
+				seen := map[string]bool{}
+				for i := 0; i < nsend; i++ {
+					b, err := rcv.Recv()
+					if err != nil {
+						stats.Fail(t, "C02:burst-lost", doc, "%s over %s: round %d: %d goroutines sent one message each at the same instant on an idle socket, %d arrived, then Recv: %v", p.name, tr, r, nsend, i, err)
+						return
+					}
+					var s, rr int
+					if _, e := fmt.Sscanf(string(b), "b%d-%d", &s, &rr); e != nil || rr != r || s < 0 || s >= nsend || seen[string(b)] {
+						stats.Fail(t, "C02:burst-wrong", doc, "%s over %s: round %d: received %q (duplicate, stale or invented)", p.name, tr, r, b)
+						return
+					}
+					seen[string(b)] = true
+				}
+				for i := 0; i < nsend; i++ {
+					if err := <-errs; err != nil {
+						stats.Fail(t, "C02:send-never-completes", doc, "%s over %s: round %d: Send failed: %v", p.name, tr, r, err)
+						return
+					}
+				}
+			}
+			stats.Eval()
+			stats.Class("burst:" + p.name)
+			stats.NonTrivial(fmt.Sprintf("C|%s|%s|%d|%d", p.name, tr, nsend, rounds))
+			stats.Sample(doc)
+		})
+	})
+}
